@@ -8,9 +8,9 @@
    [mu] columns to the right (the disparity interval [dmin, dmax] is not symmetric, so the cone of a
    pixel is not either).
 
-   [local H f R]: whenever the cone of radii R around (r, c) lies inside raster F, the cone around
-   (r', c') lies inside raster G, and the two rasters hold the same data on the two cones (position by
-   position), then f F r c = f G r' c'.  Nothing relates (r, c) to (r', c') nor the extents of F to
+   [local H f D M]: whenever the cone of radii M around (r, c) lies inside raster F, the cone around
+   (r', c') lies inside raster G, and the two rasters hold the same data on the two cones of radii D
+   (position by position), then f F r c = f G r' c'.  Nothing relates (r, c) to (r', c') nor the extents of F to
    those of G: the value is a function of the data of the cone, not of the position of the pixel, not
    of the size of the raster.  [H F r c] is a side condition on the first run (e.g. "the disparities
    of the valid pixels of the cone lie in the disparity interval"); [fun _ _ _ => True] when none. *)
@@ -46,9 +46,12 @@ Definition op (A B : Type) : Type := frame A -> Z -> Z -> B.
 Definition side (A : Type) : Type := frame A -> Z -> Z -> Prop.
 Definition no_side {A} : side A := fun _ _ _ => True.
 
-Definition local {A B} (H : side A) (f : op A B) (R : radii) : Prop :=
+(* [D]: the data cone (where the two rasters must agree); [M]: the margin (how far the pixel must be
+   from the sides of each raster).  For most steps M = D; cross-checking reads no data of other rows
+   but paints the window margin of the raster with the border flag, so its margin exceeds its cone. *)
+Definition local {A B} (H : side A) (f : op A B) (D M : radii) : Prop :=
   forall F G r c r' c',
-    cone_in F R r c -> cone_in G R r' c' -> agree_on F G R r c r' c' -> H F r c ->
+    cone_in F M r c -> cone_in G M r' c' -> agree_on F G D r c r' c' -> H F r c ->
     f F r c = f G r' c'.
 
 (* the raster a step produces, and the composition of steps *)
@@ -66,12 +69,14 @@ Fixpoint run_pipe {A} (steps : list (op A A)) : op A A :=
   | s :: rest => comp (run_pipe rest) s
   end.
 
-(* each step is local with its radii; the side condition of the pipeline collects those of the steps *)
-Inductive chain {A} : side A -> list (op A A) -> radii -> Prop :=
-| chain_nil : chain no_side [] rad0
-| chain_cons : forall H s R Hrest rest Rs,
-    rad_wf R -> local H s R -> chain Hrest rest Rs ->
-    chain (side_comp H s Hrest Rs) (s :: rest) (radd Rs R).
+(* each step is local with its radii; the side condition of the pipeline collects those of the steps;
+   data cones add, the margin of a composition is the larger of the outer margin and the outer cone
+   plus the inner margin *)
+Inductive chain {A} : side A -> list (op A A) -> radii -> radii -> Prop :=
+| chain_nil : chain no_side [] rad0 rad0
+| chain_cons : forall H s D M Hrest rest Ds Ms,
+    rad_wf D -> rad_wf M -> local H s D M -> chain Hrest rest Ds Ms ->
+    chain (side_comp H s Hrest Ds) (s :: rest) (radd Ds D) (rmax Ms (radd Ds M)).
 
 (* a crop (tile) of a raster: [h] x [w] pixels starting at (r0, c0) *)
 Definition crop {A} (F : frame A) (r0 c0 h w : Z) : frame A :=
